@@ -860,13 +860,16 @@ def writeCounted (T : Tabs) (rec1 rec2 : Str) (xs : List Val) : Except Exc (List
   let ls ← writeChunks (← T.get rec2) 8 xs n ((n + 7) / 8)
   pure (l1 :: ls)
 
+def writeRZSub (T : Tabs) (s : RZSub) : Except Exc (List Str) :=
+  match s with
+  | .radii xs => do pure (nl c!"RADII" :: (← writeCounted T c!"radii1" c!"radii2" xs))
+  | .equid d => do pure [nl c!"EQUID", ← writeValueLine (← T.get c!"equid") d]
+  | .logar d => do pure [nl c!"LOGAR", ← writeValueLine (← T.get c!"logar") d]
+  | .layer xs => do pure (nl c!"LAYER" :: (← writeCounted T c!"layer1" c!"layer2" xs))
+
 def writeRZ2D (T : Tabs) (subs : List RZSub) : Except Exc (List Str) := do
-  let ls ← subs.mapM fun s => match s with
-    | .radii xs => do pure (nl (c!"RADII") :: (← writeCounted T c!"radii1" c!"radii2" xs))
-    | .equid d => do pure [nl (c!"EQUID"), ← writeValueLine (← T.get c!"equid") d]
-    | .logar d => do pure [nl (c!"LOGAR"), ← writeValueLine (← T.get c!"logar") d]
-    | .layer xs => do pure (nl (c!"LAYER") :: (← writeCounted T c!"layer1" c!"layer2" xs))
-  pure (nl (c!"RZ2D") :: ls.flatten)
+  let ls ← subs.mapM (writeRZSub T)
+  pure (nl c!"RZ2D" :: ls.flatten)
 
 def countOf (v : Option Val) : Except Exc Val :=
   match v with
@@ -902,17 +905,19 @@ def readRZ2D (rf : ReadFn) (T : Tabs) : Nat → List Str → Except Exc (List RZ
       pure ([.layer xs], r)
     else readRZ2D rf T fuel rest
 
+def writeXYZSub (T : Tabs) (s : XYZSub) : Except Exc (List Str) := do
+  let h ← writeValueLine (← T.get c!"xyz2") [(c!"ntype", s.ntype), (c!"no", s.no), (c!"del", s.del)]
+  if s.del.isZero then
+    let nlines ← ceilDiv s.no 8
+    let no ← match s.no with | .int i => pure i.toNat | _ => .error .typeError
+    let deli ← match s.deli with | some d => pure d | none => .error .keyError
+    pure (h :: (← writeChunks (← T.get c!"xyz3") 8 deli no nlines))
+  else pure [h]
+
 def writeXYZ (T : Tabs) (deg : Val) (subs : List XYZSub) : Except Exc (List Str) := do
   let l1 ← writeValuesLine (← T.get c!"xyz1") [deg]
-  let ls ← subs.mapM fun s => do
-    let h ← writeValueLine (← T.get c!"xyz2") [(c!"ntype", s.ntype), (c!"no", s.no), (c!"del", s.del)]
-    if s.del.isZero then
-      let nlines ← ceilDiv s.no 8
-      let no ← match s.no with | .int i => pure i.toNat | _ => .error .typeError
-      let deli ← match s.deli with | some d => pure d | none => .error .keyError
-      pure (h :: (← writeChunks (← T.get c!"xyz3") 8 deli no nlines))
-    else pure [h]
-  pure ([nl (c!"XYZ"), l1] ++ ls.flatten ++ [nl []])
+  let ls ← subs.mapM (writeXYZSub T)
+  pure ([nl c!"XYZ", l1] ++ ls.flatten ++ [nl []])
 
 def readXYZSub (rf : ReadFn) (T : Tabs) (line : Str) (rest : List Str) : Except Exc (XYZSub × Nat) := do
   let vs ← readValues rf (← T.get c!"xyz2") line
@@ -959,13 +964,16 @@ def readMinc (rf : ReadFn) (T : Tabs) (ls : List Str) : Except Exc (Option Minc 
     | _ => .error .valueError
   else pure (none, rest)
 
+def writeMeshEntry (T : Tabs) (m : MeshMaker) : Except Exc (List Str) :=
+  match m with
+  | .rz2d subs => writeRZ2D T subs
+  | .xyz deg subs => writeXYZ T deg subs
+  | .minc m => writeMinc T m
+
 def writeMeshMaker (T : Tabs) (mm : List MeshMaker) : Except Exc (List Str) :=
   if mm.isEmpty then .ok [] else do
-    let ls ← mm.mapM fun m => match m with
-      | .rz2d subs => writeRZ2D T subs
-      | .xyz deg subs => writeXYZ T deg subs
-      | .minc m => writeMinc T m
-    pure ([nl (c!"MESHMAKER")] ++ ls.flatten ++ [nl []])
+    let ls ← mm.mapM (writeMeshEntry T)
+    pure ([nl c!"MESHMAKER"] ++ ls.flatten ++ [nl []])
 
 /-- `read_meshmaker`: sub-sections until a blank line -/
 def readMeshMaker (rf : ReadFn) (T : Tabs) : Nat → List MeshMaker → List Str → Except Exc (List MeshMaker × List Str)
